@@ -13,7 +13,7 @@ from concurrent.futures import ThreadPoolExecutor
 from pathlib import Path
 
 from . import build_model as bm
-from . import cli, common, ninja_graph, parts_check
+from . import cli, common, ninja_graph, parts_check, scratch_check
 from .common import MachineryError
 
 COLORS = ["#E53935", "#8E24AA", "#3949AB", "#039BE5", "#00897B", "#7CB342", "#FDD835", "#FB8C00", "#6D4C41", "#546E7A"]
@@ -228,6 +228,8 @@ def run(chk):
                              f"{max(len(w['edges']) for w in data['worlds'])} edges")
             if not res.ok:
                 chk.tlc_violation(res, f"Build/sched/{fam_fmt}")
+        # ---- response files under parallel execution (Scratch.tla on the real graphs, -j1 vs -j16 on VF / two configs)
+        scratch_check.run(chk, work)
         # ---- real builds
         files = sources(r, 6 if quick else 8)
         variants = [{"kind": "base"}, {"kind": "argperm"}, {"kind": "hashseed", "seed": 1}, {"kind": "hashseed", "seed": 2},
